@@ -86,7 +86,8 @@ LEVEL_TEXT = ('Theorems: the program regenerated from the current source equals 
               'unrelate_withdraws_exactly_reachable); in every state reached without remove (adds, re-registrations with recorded '
               'relate / unrelate relations, relate / unrelate of any number of entries, reads) the relation graph is symmetric, '
               'has no self links, and `related` lists y for x exactly when it lists x for y (relations_symmetric_reachable, '
-              'related_symmetric_reachable); for the Introspector state machine, for every operation sequence: '
+              'related_symmetric_reachable); the keys of the relation table are pairwise distinct in every reachable state, '
+              'with no hypothesis on the objects (reachable_refs_keys_distinct); for the Introspector state machine, for every operation sequence: '
               'relations are symmetric and exact, get returns the latest registration, remove erases the entry, disabled '
               'introspection records nothing, only executed actions are recorded -- the last four also restated about the '
               'regenerated program (..._generated).')
